@@ -1,6 +1,7 @@
 package main
 
 import (
+	"verif/harness/internal/c13"
 	"verif/harness/internal/c01"
 	"verif/harness/internal/c16"
 	"verif/harness/internal/c08"
@@ -20,6 +21,8 @@ import (
 )
 
 func init() {
+	checks["C13"] = c13.Run
+	workers["c13"] = c13.Worker
 	checks["C01"] = c01.Run
 	workers["c01"] = c01.Worker
 	checks["C16"] = c16.Run
